@@ -1,4 +1,5 @@
 import AcraModel.Envelope.Detector
+import AcraModel.Envelope.Translator
 import AcraModel.Crypto.Shim
 /-! Driver ops for the envelope models (used by C01, C02, C03, C11, C14, C15). -/
 namespace Driver.C01
@@ -31,8 +32,57 @@ def scanStr : ScanOut → String
   | .fatal => "fatal"
   | .panic => "panic"
 
+/-- `nil` = Go nil slice, otherwise hex (`-` = empty, non-nil) -/
+def parseNil (s : String) : Option (Option Bytes) :=
+  if s = "nil" then some none else (ofHex s).map some
+
+/-- the store of the translator ops: `hasCb cbErr [poison kv ×4] storeId [kv ×4] hmacKey` – one client id
+owns keys, every other id has none -/
+def parseStore : List String → Option (Translator.Store × List String)
+  | has :: cbErr :: ppub :: pprivs :: psym :: psyms :: sid :: pub :: privs :: sym :: syms :: hk :: rest => do
+      let pk ← parseKV ppub pprivs psym psyms
+      let kv ← parseKV pub privs sym syms
+      let sid ← ofHex sid
+      let hk ← parseOpt hk
+      let st : Translator.Store :=
+        { keys := fun id => if id = sid then kv else ⟨none, none, none, none⟩,
+          hmac := fun id => if id = sid then hk else none,
+          poison := { hasCallbacks := has == "true", callbackErr := cbErr == "true", pk := pk } }
+      pure (st, rest)
+  | _ => none
+
+def outAlarms (r : Out Bytes × Nat) : String :=
+  match r.1 with
+  | .ok b => s!"ok {hexOf b} {r.2}"
+  | .err => s!"err {r.2}"
+  | .panic => "panic"
+
+def outPair (o : Out (Bytes × Bytes)) : String := o.render fun (e, h) => s!"{hexOf e} {hexOf h}"
+
+/-- the eight AcraTranslator operations: `tr.<Op> <store> reqId addCtx [hash] data [rnd]` -/
+def handleTr (op : String) (args : List String) : Option String := do
+  let (st, rest) ← parseStore args
+  match op, rest with
+  | "Encrypt", [id, ac, d, rnd] => pure (outHex (Translator.encrypt C st (← ofHex d) (← parseNil id) (← parseNil ac) (← ofHex rnd)))
+  | "EncryptSym", [id, ac, d, rnd] => pure (outHex (Translator.encryptSym C st (← ofHex d) (← parseNil id) (← parseNil ac) (← ofHex rnd)))
+  | "Decrypt", [id, ac, d] => pure (outAlarms (Translator.decrypt C st (← ofHex d) (← parseNil id) (← parseNil ac)))
+  | "DecryptSym", [id, ac, d] => pure (outAlarms (Translator.decryptSym C st (← ofHex d) (← parseNil id) (← parseNil ac)))
+  | "EncryptSearchable", [id, ac, d, rnd] =>
+      pure (outPair (Translator.encryptSearchable C st (← ofHex d) (← parseNil id) (← parseNil ac) (← ofHex rnd)))
+  | "EncryptSymSearchable", [id, ac, d, rnd] =>
+      pure (outPair (Translator.encryptSymSearchable C st (← ofHex d) (← parseNil id) (← parseNil ac) (← ofHex rnd)))
+  | "DecryptSearchable", [id, ac, h, d] =>
+      pure (outAlarms (Translator.decryptSearchable C st (← ofHex d) (← parseNil h) (← parseNil id) (← parseNil ac)))
+  | "DecryptSymSearchable", [id, ac, h, d] =>
+      pure (outAlarms (Translator.decryptSymSearchable C st (← ofHex d) (← parseNil h) (← parseNil id) (← parseNil ac)))
+  | _, _ => none
+
 def handle (op : String) (args : List String) : Option String :=
   match op, args with
+  | "lib.protect", [k, pub, privs, sym, syms, d, rnd] => do
+      pure (outHex (Translator.libraryProtect C (← parseKV pub privs sym syms) (← parseKind k) (← ofHex d) (← ofHex rnd)))
+  | "lib.reveal", [pub, privs, sym, syms, d] => do
+      pure (outHex (Translator.libraryReveal C (← parseKV pub privs sym syms) (← ofHex d)))
   | "struct.create", [pub, ctx, m, rnd] => do
       pure (outHex (createStruct C (← ofHex pub) (← ofHex ctx) (← ofHex m) (← ofHex rnd)))
   | "struct.validate", [d] => do pure (trimr (outUnit (validateStruct (← ofHex d))))
@@ -66,6 +116,9 @@ def handle (op : String) (args : List String) : Option String :=
   | "detector.compat", [pub, privs, sym, syms, d] => do
       let kv ← parseKV pub privs sym syms
       pure (scanStr (onColumnCompat [decryptCallback C kv] (← ofHex d)))
-  | _, _ => none
+  | _, _ =>
+    match op.splitOn "." with
+    | ["tr", o] => handleTr o args
+    | _ => none
 
 end Driver.C01
